@@ -917,6 +917,8 @@ def Optimize(
   if max_union:
     node = node.Visit(CollapseLongUnions(max_union))
   node = node.Visit(AdjustReturnAndConstantGenericType())
+  # Turning `object` into `Any` above can put Any into a union; join again.
+  node = node.Visit(SimplifyUnions())
   if remove_mutable:
     node = node.Visit(AbsorbMutableParameters())
     node = node.Visit(CombineContainers())
